@@ -75,8 +75,10 @@ class CuspCylinder(Assembly):
         self.cusp_left.chop_radial(**kwargs)
 
     def chop_tangential(self, **kwargs):
+        # the right half in full; of the left half only the block whose direction the right one doesn't define
+        # (chopping both in full specifies directions twice, by blocks that see them from opposite ends)
         self.cusp_right.chop_tangential(**kwargs)
-        self.cusp_left.chop_tangential(**kwargs)
+        self.cusp_left.operations[2].chop(1, **kwargs)
 
     def set_outer_patch(self, patch_name: str) -> None:
         self.cusp_left.set_outer_patch(patch_name)
